@@ -31,6 +31,12 @@ Record fitargs := {
   monodim   : option N      (* None = no_monodim                                                     *)
 }.
 
+(* positional constructor (case files, witnesses) *)
+Definition mk (rows : N) (rg mx : list N) (nw : N) (cl od : list N) (kv : list (N * bool)) (sm : list bool) (po : list N)
+  (mono : option N) : fitargs :=
+  {| rows := rows; ranges := rg; maxidx := mx; nweights := nw; coordlens := cl; orders := od; knotvecs := kv;
+     smooth_nz := sm; porders := po; monodim := mono |}.
+
 Definition ndim (a : fitargs) : nat := length (ranges a).
 
 Definition nthN (l : list N) (d : nat) : N := nth d l 0.
